@@ -49,8 +49,8 @@ P(t) == Fl1("p", t)
 Not(t) == Un("not", t)
 
 B0 == {A, B} \cup (IF Thorough THEN {TrueC} ELSE {})
-N0 == {X, One} \cup (IF Thorough THEN {Rr, Half} ELSE {})
-U0 == {V, LOC} \cup (IF Thorough THEN {O1, Wv} ELSE {})
+N0 == {X, One} \cup (IF Thorough THEN {Half} ELSE {})
+U0 == {V, LOC} \cup (IF Thorough THEN {O1} ELSE {})
 BOps1 == {"and", "or", "implies", "iff"}
 BOps2 == IF Thorough THEN BOps1 ELSE {"and", "iff"}
 Rels == {"eq", "le", "lt"}
@@ -68,10 +68,10 @@ NL1 == N0 \cup N1
 E01 == B0 \cup N0 \cup U0 \cup B1 \cup N1
 
 \* ---- depth 2 --------------------------------------------------------------------------
+\* (normal forms by construction; a division by a closed zero term cannot be built)
 D2 == {Not(t) : t \in {t \in B1 : t.op # "not"}}
       \cup {Bin(o, s, t) : o \in BOps2, s \in BL1, t \in BL1}
-      \cup {Bin(o, s, t) : o \in Rels, s \in NL1, t \in NL1}
-      \cup {Bin(o, s, t) : o \in AOps, s \in NL1, t \in NL1}
+      \cup {e \in {Bin(o, s, t) : o \in Rels \cup AOps, s \in NL1, t \in NL1} : ~ZeroDen(e)}
       \cup {Qu(q, n, t) : q \in Qs, n \in QVars, t \in B1}
 \* fixed family (always used): quantified expressions with deeper bodies, free + bound occurrences,
 \* nested binders; expressions over the remaining leaf kinds
@@ -93,11 +93,14 @@ DQ == {Qu(q, "v", t) : q \in Qs, t \in QBodies}
             Node("or", <<P(V), A, Qu("exists", "v", P(V))>>, "", UNDEF, <<>>), Node("times", <<X, Kp, One>>, "", UNDEF, <<>>),
             Node("forall", <<Bin("eq", V, Wv)>>, "", UNDEF, <<VDecl("v"), VDecl("w")>>),
             Node("exists", <<Bin("and", P(V), Bin("eq", Wv, LOC))>>, "", UNDEF, <<VDecl("w"), VDecl("v")>>)}
-Deep == {e \in (D2 \ E01) \cup DQ : ~ZeroDen(e) /\ NF(e)}
 Shallow == E01
-DeepAll == SetToSeq(Deep)
-\* the deep expressions of this run: the quantifier family and 1 in SD of the others
-DeepSeq == SelectSeq([i \in DOMAIN DeepAll |-> IF (i + Off) % SD = 0 \/ DeepAll[i] \in DQ THEN DeepAll[i] ELSE A], LAMBDA e : e # A)
+DQSeq == SetToSeq(DQ)
+DeepAll == SetToSeq((D2 \ E01) \ DQ)
+\* the expressions of this run: depth <= 1, the fixed family, 1 in SD of the other deep ones
+DeepSeq == LET r == Off % SD IN [j \in 1..((Len(DeepAll) + r) \div SD) |-> DeepAll[SD * j - r]]
+NShallow == Cardinality(Shallow)
+NFixed == NShallow + Len(DQSeq)
+ExprSeq == SetToSeq(Shallow) \o DQSeq \o DeepSeq
 
 \* ---- value pools (constants: TLC evaluates them once) ------------------------------------
 ValsB  == {A, B, Not(A), P(V), Bin("and", A, B)} \cup (IF Thorough THEN {TrueC, C, Not(P(LOC))} ELSE {})
@@ -148,13 +151,11 @@ Hits(e, m) == \E i \in DOMAIN m : m[i].k \in Subterms(e)
 Thin(S, n, r) == IF n = 1 THEN S ELSE LET q == SetToSeq(S) IN {q[i] : i \in {j \in DOMAIN q : j % n = r % n}}
 
 \* one group per expression: the expression and the maps it is paired with
-NShallow == Cardinality(Shallow)
-ExprSeq == SetToSeq(Shallow) \o DeepSeq
 MapsOf(i) ==
    LET e == ExprSeq[i]
        m3 == {m \in M3 : Hits(e, m)}
    IN IF i <= NShallow THEN {<<>>} \cup M1(e) \cup M2of(e, Thin(Good1(e), SS, i + Off), Thin(Bad1(e), SS, i + Off)) \cup m3
-      ELSE IF e \in DQ THEN {<<>>} \cup M1(e) \cup M2of(e, Thin(Good1(e), SQ, i + Off), Thin(Bad1(e), SQ, i + Off)) \cup m3
+      ELSE IF i <= NFixed THEN {<<>>} \cup M1(e) \cup M2of(e, Thin(Good1(e), SQ, i + Off), Thin(Bad1(e), SQ, i + Off)) \cup m3
       ELSE Thin(M1(e), S1, i + Off)
            \cup (IF (i + Off) % SE = 0
                  THEN M2of(e, Thin(Good1(e), S2, i + Off), Thin(Bad1(e), S2, i + Off)) \cup m3 ELSE {})
